@@ -50,9 +50,6 @@ type c08State struct {
 	partials map[string]bool
 }
 
-func stateTok(off int) string {
-	return base64.RawURLEncoding.EncodeToString([]byte(fmt.Sprintf(`{"offset":%d}`, off)))
-}
 
 func (s *c08State) live(rn string) []*c08Sess {
 	out := []*c08Sess{}
